@@ -641,6 +641,12 @@ fn round_half_up(value: f64) -> f64 {
     } else if (-0.5..0f64).contains(&value) {
         -0f64
     } else {
-        (value + 0.5).floor()
+        // not floor(value + 0.5): the addition itself rounds (0.49999999999999994 + 0.5 is 1)
+        let floor = value.floor();
+        if value - floor >= 0.5 {
+            floor + 1f64
+        } else {
+            floor
+        }
     }
 }
